@@ -287,7 +287,7 @@ impl<'t> LRParser<'t> {
         // We remove the last n entries from the parse tree stack including skip tokens which are
         // not part of the LALR(1) automaton.
         let children: Vec<LRParseTree<'_>> = self.parse_tree_stack.pop_n(n, |pt| match pt {
-            LRParseTree::Terminal(t) => !t.is_skip_token(),
+            LRParseTree::Terminal(t) => !t.is_effectively_skip_token(),
             LRParseTree::NonTerminal(_, _) => true,
         });
 
